@@ -103,6 +103,10 @@ def run(ctx, chk):
             n_run += 1
             v = ef['args'][0]
             ok, desc, rule = analyse_value(v, p.conds, asserts)
+            if ok and opt == 'Some' and psi.is_int_const(v):
+                # the option was given: whatever constant is handed over instead of rate x 1000 is a silent substitution
+                ok, rule = False, 'R3'
+                desc = 'the constant %d although a rate was given (an unrepresentable or any other rate is silently replaced)' % v[1]
             some_seen |= opt == 'Some'
             none_seen |= opt == 'None'
             chk.ob('C19.%s' % rule, 'main:drift-value:%s' % opt, ok, ef['site'][2],
@@ -120,6 +124,29 @@ def run(ctx, chk):
     # ---- R4 identity flow to the record
     chain_ok = flow_chain(fb, chk)
     _ = chain_ok
+    # ---- R5 "copied verbatim into every record": on every publishing path of the updater the record's drift field
+    # is the updater's configured field, never assigned after construction (C08.C on this profile's MIR)
+    if not getattr(chk, '_nested', False):
+        from . import C08
+        sub = type(chk)('C19', LEVEL, chk.tier)
+        sub._nested = True
+        sub._is_control = True
+
+        class _Ctx:
+            tier, repo = ctx.tier, ctx.repo
+
+            def facts(self, profile=None):
+                return ctx.facts(prof)
+
+            def read(self, rel):
+                return ctx.read(rel)
+        C08.run(_Ctx(), sub)
+        n5 = 0
+        for o in sub.obs:
+            if o['rule'] == 'C08.C' and o['nontrivial']:
+                n5 += 1
+                chk.ob('C19.R5', '%s:%s' % (o['rule'], o['key']), o['ok'], o['where'], o['detail'])
+        chk.floor('C19.R5', 'drift-field obligations of the publishing paths', n5, 2)
 
 
 def contains(v, needle):
